@@ -601,6 +601,10 @@ func main() {
 	for _, p := range pkgs {
 		if used[p.alias] {
 			fmt.Fprintf(&b, "\t%s %q\n", p.alias, p.importPath)
+		} else if !strings.Contains(p.importPath, "verifharness") {
+			// a shipped package with no attribute of its own (only VALUE lines for attributes of other
+			// packages, rfc3580): linked in for its init()
+			fmt.Fprintf(&b, "\t_ %q\n", p.importPath)
 		}
 	}
 	b.WriteString(")\n\nvar registry = []*helperEntry{\n")
